@@ -24,13 +24,13 @@ from vf.props.c09 import PebbleStub, _Tqdm
 
 LEVEL = "model_checking"
 META = {
-    "bounds": "parallelise with a cache over 1-3 keys (ints and strings) with small picklable results (every byte offset of every result file), sequential and "
+    "bounds": "parallelise with a cache over 1-3 keys (ints, strings, floats, dotted names) with small picklable results (every byte offset of every result file), sequential and "
     "through the pool stub; scan.time_course with a cache (byte offsets {0, 1, half, len-1} of the larger result files); one fault per run: a crash "
     "before any executed line of mxlpy/parallel.py, or inside any result-file write; then an undisturbed rerun and a third run",
     "stubs": ["sys.settrace line hook on mxlpy/parallel.py raises the crash", "pickle.dump in mxlpy.parallel writes a solver-chosen prefix, flushes it, and crashes",
               "Path in mxlpy.parallel opens files through a wrapper whose unflushed buffer is discarded at the crash (a killed process cannot flush)",
               "pebble pool -> deep-copy stub, tqdm no-op", "scipy.integrate.solve_ivp -> closed-form solution (concrete values)"],
-    "outside": "keys whose str() collide or contain path separators, real OS-level kill timing inside a single write syscall, power loss (non-durable renames)",
+    "outside": "keys whose str() are equal or contain path separators, real OS-level kill timing inside a single write syscall, power loss (non-durable renames)",
     "assumptions_list": ["rename/replace is atomic and durable", "bytes handed to the OS before the crash stay in the file", "results are concrete (pickle is C-level)"],
 }
 
@@ -289,7 +289,9 @@ class CacheRun(Scenario):
 
 def scenarios(tier, seed):
     scs = []
-    keysets = [(0,), (0, 1), ("a", "b")] if tier == "quick" else [(0,), (0, 1), ("a", "b"), (2, 0, 1), ("x", 7)]
+    # float keys and dotted names: distinct keys whose text only differs after the last dot
+    keysets = [(0,), (0, 1), ("a", "b"), (1.25, 1.5), ("v1.1", "v1.2")] if tier == "quick" else [
+        (0,), (0, 1), ("a", "b"), (1.25, 1.5), ("v1.1", "v1.2"), (2, 0, 1), ("x", 7), (1.0, 1.25, 1.5)]
     for ks in keysets:
         for par in (False, True):
             for fault in ("line", "write"):
